@@ -153,21 +153,17 @@ func (c *Client) Sanitize() error {
 		c.IdleTimeout = DefaultIdleTimeout
 	}
 
-	if c.MaxRetries == -1 {
-		c.MaxRetries = 0
-	} else if c.MaxRetries == 0 {
+	// -1 ("disabled") is left as it is: Sanitize runs more than once on the same
+	// value (NewClient, Config.Sanitize, olric.New, NewClusterClient). Rewriting -1
+	// to 0 made the next run replace it with the default, and go-redis itself reads
+	// 0 as "use my default" and -1 as "disabled".
+	if c.MaxRetries == 0 {
 		c.MaxRetries = DefaultMaxRetries
 	}
-	switch c.MinRetryBackoff {
-	case -1:
-		c.MinRetryBackoff = 0
-	case 0:
+	if c.MinRetryBackoff == 0 {
 		c.MinRetryBackoff = DefaultMinRetryBackoff
 	}
-	switch c.MaxRetryBackoff {
-	case -1:
-		c.MaxRetryBackoff = 0
-	case 0:
+	if c.MaxRetryBackoff == 0 {
 		c.MaxRetryBackoff = DefaultMaxRetryBackoff
 	}
 
